@@ -411,7 +411,7 @@ def atom_defs(a):
                         d.append(e)
                         d.append(-e)
                     bits = [b for b in range(c.bit_length()) if (c >> b) & 1]
-                    if 2 <= len(bits) <= 8:
+                    if 2 <= len(bits) <= 4:
                         e = A
                         for b in bits:
                             ba = reg_atom(("and", a[1], 1 << b), 0, 1 << b, 1 << b)
@@ -533,7 +533,24 @@ def entails_ge0(facts, goal, neqs=()):
         cons = [x for x in cons if len(x[0]) <= MAX_TERMS]
     # negated goal: -goal - 1 >= 0
     ng = (-goal) - 1
-    sel, atoms = select_with_defs(cons, set(goal.atoms()))
+    # staged: small neighbourhoods first (large selections make Fourier-Motzkin give up)
+    seeds = set(goal.atoms())
+    for rounds in (1, 2):
+        sel, atoms = relevant(cons, seeds, extra_rounds=rounds)
+        if len(sel) > 60:
+            break
+        sel = list(sel)
+        for a in set(atoms) | seeds:
+            lo = ATOM_LO.get(a)
+            hi = ATOM_HI.get(a)
+            if lo is not None:
+                sel.append(({a: 1}, -lo))
+            if hi is not None:
+                sel.append(({a: -1}, hi))
+        sel.append((ng.t, ng.c))
+        if fm_unsat(sel):
+            return True
+    sel, atoms = select_with_defs(cons, seeds)
     sel.append((ng.t, ng.c))
     return fm_unsat(sel)
 
